@@ -3,6 +3,7 @@ package main
 // Core data structures of the VC generator: SMT context, symbolic values, lazily resolved heap state.
 
 import (
+	"os"
 	"fmt"
 	"go/types"
 	"math/big"
@@ -668,6 +669,9 @@ func (c *Ctx) script(o *Obligation, timeoutMs int, logic string) string {
 		sb.WriteString(d + "\n")
 	}
 	for k, a := range c.asserts[:o.N] {
+		if os.Getenv("GOVC_DEBUG") != "" && strings.Contains(a.comment, "ensures of sort.Sort") {
+			fmt.Printf("debug script %s k=%d hide=%d N=%d visible=%v\n", o.Name, k, a.hideAfter, o.N, c.visible(k, o.N))
+		}
 		if !c.visible(k, o.N) {
 			continue
 		}
